@@ -355,11 +355,17 @@ theorem tok_step {cfg : Cfg} {s s' : St} {a : Act} (hm : MergerOk cfg.merge) (hc
     split at hst
     · cases hst; exact tok_frame ht rfl rfl rfl rfl (Nat.le_refl _) rfl rfl rfl
     · cases hst
+  | findErrRelease i fs =>
+    simp only [step] at hst
+    split at hst
+    · cases hst; exact tok_frame ht rfl rfl rfl rfl (Nat.le_refl _) rfl rfl rfl
+    · cases hst
 
 theorem tok_reachable {cfg : Cfg} {v0 f0 : Nat} {s : St} (hm : MergerOk cfg.merge) (hr : cfg.recheck = true)
-    (hcl : cfg.cloneLocked = true) (hal : cfg.allocLocked = true) (h : Reachable cfg v0 f0 s) : TokInv cfg s := by
+    (hcl : cfg.cloneLocked = true) (hal : cfg.allocLocked = true) (hfe : cfg.findErrReleases = false)
+    (h : Reachable cfg v0 f0 s) : TokInv cfg s := by
   induction h with
   | init => exact tok_init cfg v0 f0
-  | step a hreach hst ih => exact tok_step hm hcl (safe_reachable hr hcl hal hreach) ih hst
+  | step a hreach hst ih => exact tok_step hm hcl (safe_reachable hr hcl hal hfe hreach) ih hst
 
 end LinVerif.Lemmas.C02
